@@ -8,6 +8,8 @@ namespace Shexer
 /-- a per-shape statement rewriting that keeps `ty` and `inverse` -/
 structure TyPreserving (f : Shape → Stmt → Stmt) : Prop where
   ty : ∀ sh s, (f sh s).ty = s.ty
+  types : ∀ sh s, (f sh s).types = s.types
+  choice : ∀ sh s, (f sh s).choice = s.choice
   inv : ∀ sh s, (f sh s).inverse = s.inverse
   /-- the rewriting looks at the header of the shape only -/
   hdr : ∀ sh sh' s, sh.name = sh'.name → sh.nInstances = sh'.nInstances → f sh s = f sh' s
@@ -37,8 +39,10 @@ theorem dropRefs_mapShape (cfg : Config) (gone : List String) (f : Shape → Stm
     fun l => filter_map_of_pred l (f sh) _ (by intro a; rw [hf.inv])
   have e2 : ∀ l : List Stmt, (l.map (f sh)).filter (fun s => s.inverse) = (l.filter fun s => s.inverse).map (f sh) :=
     fun l => filter_map_of_pred l (f sh) _ (by intro a; rw [hf.inv])
-  have e3 : ∀ l : List Stmt, (l.map (f sh)).filter (fun s => !gone.contains s.ty) = (l.filter fun s => !gone.contains s.ty).map (f sh) :=
-    fun l => filter_map_of_pred l (f sh) _ (by intro a; rw [hf.ty])
+  have e3 : ∀ l : List Stmt,
+      (l.map (f sh)).filter (fun s => !gone.contains s.ty && (!s.choice || !(s.types.any fun ty => gone.contains ty)))
+        = (l.filter fun s => !gone.contains s.ty && (!s.choice || !(s.types.any fun ty => gone.contains ty))).map (f sh) :=
+    fun l => filter_map_of_pred l (f sh) _ (by intro a; simp only [hf.ty, hf.types, hf.choice])
   by_cases hi : cfg.inverse = true
   · simp only [hi, if_true, e1, e2, e3, hfe, List.map_append]
   · have hi' : cfg.inverse = false := by simpa using hi
